@@ -11,6 +11,7 @@
   breaks the corresponding theorem here.
 -/
 import SCoda.Gen.WrapFns
+import SCoda.Gen.Tables
 namespace SCoda.WrapTie
 open SCoda
 
@@ -53,15 +54,27 @@ theorem foldl_editRel (f : Msg → Msg) (s : Seq) (l acc : List Msg) :
     rw [List.foldl_cons, ih]
     by_cases h : xs = [] <;> simp [h]
 
+
+/-- unfold a translated wrapper method and the model function it is compared with, for concrete stale flags -/
+macro "wrap_simp" : tactic => `(tactic|
+  simp [Gen.Wrap.getAbs, Gen.Wrap.getRel, Gen.Wrap.invalidateAbs, Gen.Wrap.invalidateRel, Gen.Wrap.refresh, Gen.Wrap.copy,
+    Gen.Wrap.pad, Gen.Wrap.setChannel, Gen.Wrap.normalise, Gen.Wrap.cutoff, Gen.Wrap.addAbsoluteMessage, Gen.Wrap.addRelativeMessage,
+    Gen.Wrap.isEmpty,
+    View.rel_to_absolute_sequence, View.abs_to_relative_sequence, View.rel_pad, View.rel_set_channel, View.rel_normalise_relative,
+    View.abs_cutoff, View.abs_add_message, View.rel_add_message, View.seq_init, View.rel_is_empty,
+    Seq.readAbs, Seq.readRel, Seq.refresh, Seq.copy, Seq.onAbs, Seq.onRel, Seq.padSeq, Seq.setChannelSeq, Seq.normaliseSeq, Seq.cutoffSeq,
+    Seq.addAbsMsg, Seq.addRelMsg, Seq.ofAbs, Seq.ofRel, Seq.new, unit])
+
 /-! ### the two properties and the flags -/
 
-theorem getAbs_eq (e : Env) (s : Seq) : Gen.Wrap.getAbs e s = (fun p => (p.1, ())) <$> s.readAbs := by
+/-- the `abs` property: same state afterwards AND the object it returns is the absolute view -/
+theorem getAbs_eq (e : Env) (s : Seq) : Gen.Wrap.getAbs e s = s.readAbs := by
   obtain ⟨a, r, sa, sr⟩ := s
-  cases sa <;> cases sr <;> rfl
+  cases sa <;> cases sr <;> (first | rfl | wrap_simp)
 
-theorem getRel_eq (e : Env) (s : Seq) : Gen.Wrap.getRel e s = (fun p => (p.1, ())) <$> s.readRel := by
+theorem getRel_eq (e : Env) (s : Seq) : Gen.Wrap.getRel e s = s.readRel := by
   obtain ⟨a, r, sa, sr⟩ := s
-  cases sa <;> cases sr <;> rfl
+  cases sa <;> cases sr <;> (first | rfl | wrap_simp)
 
 /-- the list `readAbs` returns is the absolute view of the state it returns (what `return self._abs` reads) -/
 theorem readAbs_snd (s s' : Seq) (a : List Msg) (h : s.readAbs = .ok (s', a)) : a = s'.abs := by
@@ -77,38 +90,38 @@ theorem invalidateRel_eq (e : Env) (s : Seq) : Gen.Wrap.invalidateRel e s = .ok 
 
 theorem refresh_eq (e : Env) (s : Seq) : Gen.Wrap.refresh e s = unit s.refresh := by
   obtain ⟨a, r, sa, sr⟩ := s
-  cases sa <;> cases sr <;> rfl
+  cases sa <;> cases sr <;> (first | rfl | wrap_simp)
 
 theorem copy_eq (e : Env) (s : Seq) : Gen.Wrap.copy e s = .ok (s, s.copy) := by
   obtain ⟨a, r, sa, sr⟩ := s
-  cases sa <;> cases sr <;> rfl
+  cases sa <;> cases sr <;> (first | rfl | wrap_simp)
 
 /-! ### mutators built from total view functions -/
 
 theorem pad_eq (e : Env) (s : Seq) (n : Int) : Gen.Wrap.pad e s n = unit (s.padSeq n) := by
   obtain ⟨a, r, sa, sr⟩ := s
-  cases sa <;> cases sr <;> rfl
+  cases sa <;> cases sr <;> (first | rfl | wrap_simp)
 
 theorem setChannel_eq (e : Env) (s : Seq) (c : Int) : Gen.Wrap.setChannel e s c = unit (s.setChannelSeq c) := by
   obtain ⟨a, r, sa, sr⟩ := s
-  cases sa <;> cases sr <;> rfl
+  cases sa <;> cases sr <;> (first | rfl | wrap_simp)
 
 theorem normalise_eq (e : Env) (s : Seq) : Gen.Wrap.normalise e s = unit s.normaliseSeq := by
   obtain ⟨a, r, sa, sr⟩ := s
-  cases sa <;> cases sr <;> rfl
+  cases sa <;> cases sr <;> (first | rfl | wrap_simp)
 
 theorem cutoff_eq (e : Env) (s : Seq) (m r : Int) : Gen.Wrap.cutoff e s m r = unit (s.cutoffSeq m r) := by
   obtain ⟨a, r0, sa, sr⟩ := s
-  cases sa <;> cases sr <;> rfl
+  cases sa <;> cases sr <;> (first | rfl | wrap_simp)
 
 theorem addAbs_eq (e : Env) (s : Seq) (m : Msg) : Gen.Wrap.addAbsoluteMessage e s m = unit (s.addAbsMsg m) := by
   obtain ⟨a, r0, sa, sr⟩ := s
-  cases sa <;> cases sr <;> rfl
+  cases sa <;> cases sr <;> (first | rfl | wrap_simp)
 
 theorem addRel_eq (e : Env) (s : Seq) (m : Msg) (i : Option Nat) :
     Gen.Wrap.addRelativeMessage e s m i = unit (s.addRelMsg m i) := by
   obtain ⟨a, r0, sa, sr⟩ := s
-  cases sa <;> cases sr <;> rfl
+  cases sa <;> cases sr <;> cases i <;> (first | rfl | wrap_simp)
 
 theorem overwriteAbs_eq (e : Env) (s : Seq) (ms : List Msg) :
     Gen.Wrap.overwriteAbsoluteMessages e s ms = .ok (s.overwriteAbs ms, ()) := by
@@ -177,17 +190,12 @@ theorem quantiseAndNormalise_eq (e : Env) (s : Seq) :
 
 theorem scale_eq (e : Env) (s : Seq) (k : Int) (m : Option Seq) (q : Bool) :
     Gen.Wrap.scale e s k m q = unit (Seq.scaleSeq e s k q) := by
-  have h1 : ∀ s : Seq, (do let r1 ← Gen.Wrap.getRel e s
-                            let v2 ← View.rel_scale e r1.1.rel k m
-                            let r3 ← Gen.Wrap.invalidateAbs e { r1.1 with rel := v2.1 }
-                            pure r3.1 : Except Err Seq) = s.onRel (fun r => .ok (scaleRel k r)) := by
-    intro s; obtain ⟨a, r, sa, sr⟩ := s
-    cases sa <;> cases sr <;> rfl
   cases q
   · obtain ⟨a, r, sa, sr⟩ := s
-    cases sa <;> cases sr <;> rfl
+    cases sa <;> cases sr <;>
+      simp [Gen.Wrap.scale, Gen.Wrap.getRel, View.rel_scale, Gen.Wrap.invalidateAbs, Seq.scaleSeq, Seq.onRel, Seq.readRel, unit,
+        View.abs_to_relative_sequence]
   · simp only [Gen.Wrap.scale, Seq.scaleSeq, quantiseAndNormalise_eq, if_true]
-    have := h1 s
     obtain ⟨a, r, sa, sr⟩ := s
     cases sa <;> cases sr <;>
       simp [Gen.Wrap.getRel, View.rel_scale, Gen.Wrap.invalidateAbs, Seq.onRel, Seq.readRel, unit, View.abs_to_relative_sequence] <;>
@@ -215,21 +223,19 @@ def readRels (others : List Seq) : Except Err (List (List Msg)) := others.mapM (
 def readAbss (others : List Seq) : Except Err (List (List Msg)) := others.mapM (fun x => (·.2) <$> x.readAbs)
 
 theorem getRel_view (e : Env) (x : Seq) :
-    (do let r ← Gen.Wrap.getRel e x; pure r.1.rel : Except Err (List Msg)) = (·.2) <$> x.readRel := by
-  obtain ⟨a, r, sa, sr⟩ := x
-  cases sa <;> cases sr <;> rfl
+    (do let r ← Gen.Wrap.getRel e x; pure r.2 : Except Err (List Msg)) = (·.2) <$> x.readRel := by
+  rw [getRel_eq]; cases x.readRel <;> rfl
 
 theorem getAbs_view (e : Env) (x : Seq) :
-    (do let r ← Gen.Wrap.getAbs e x; pure r.1.abs : Except Err (List Msg)) = (·.2) <$> x.readAbs := by
-  obtain ⟨a, r, sa, sr⟩ := x
-  cases sa <;> cases sr <;> rfl
+    (do let r ← Gen.Wrap.getAbs e x; pure r.2 : Except Err (List Msg)) = (·.2) <$> x.readAbs := by
+  rw [getAbs_eq]; cases x.readAbs <;> rfl
 
 /-- `concatenate(sequences)`: the receiver's relative view is read first, then every argument's; the model's
     `concatSeq` receives the arguments' relative views -/
 theorem concatenate_eq (e : Env) (s : Seq) (others : List Seq) :
     Gen.Wrap.concatenate e s others =
       (do let p ← s.readRel; let rels ← readRels others; unit (p.1.concatSeq rels)) := by
-  have hv : (fun x => (do let r ← Gen.Wrap.getRel e x; pure r.1.rel : Except Err (List Msg))) =
+  have hv : (fun x => (do let r ← Gen.Wrap.getRel e x; pure r.2 : Except Err (List Msg))) =
       (fun x => (·.2) <$> x.readRel) := funext (getRel_view e)
   unfold Gen.Wrap.concatenate
   rw [hv]
@@ -243,7 +249,7 @@ theorem concatenate_eq (e : Env) (s : Seq) (others : List Seq) :
 theorem merge_eq (e : Env) (s : Seq) (others : List Seq) :
     Gen.Wrap.merge e s others =
       (do let p ← s.readAbs; let abss ← readAbss others; unit (p.1.mergeSeq abss)) := by
-  have hv : (fun x => (do let r ← Gen.Wrap.getAbs e x; pure r.1.abs : Except Err (List Msg))) =
+  have hv : (fun x => (do let r ← Gen.Wrap.getAbs e x; pure r.2 : Except Err (List Msg))) =
       (fun x => (·.2) <$> x.readAbs) := funext (getAbs_view e)
   unfold Gen.Wrap.merge
   rw [hv]
@@ -267,7 +273,7 @@ theorem getSequenceDuration_eq (e : Env) (s : Seq) :
 theorem isEmpty_eq (e : Env) (s : Seq) :
     Gen.Wrap.isEmpty e s = (do let p ← s.readRel; pure (p.1, !(p.2.any (·.ty == .noteOn)))) := by
   obtain ⟨a, r, sa, sr⟩ := s
-  cases sa <;> cases sr <;> rfl
+  cases sa <;> cases sr <;> (first | rfl | wrap_simp)
 
 /-- every method the translator is asked for is covered by a theorem above (tripwire: a method added to
     the translator's list without an equality theorem fails here) -/
@@ -275,7 +281,28 @@ theorem translated_covered :
     Gen.Wrap.translated = ["invalidate_abs", "invalidate_rel", "abs", "rel", "refresh", "copy", "add_absolute_message",
       "add_relative_message", "normalise", "concatenate", "cutoff", "merge", "messages_abs", "messages_rel",
       "overwrite_absolute_messages", "overwrite_relative_messages", "pad", "set_channel", "split", "quantise",
-      "quantise_note_lengths", "quantise_and_normalise", "scale", "transpose", "get_sequence_duration", "is_empty"] := by
+      "quantise_note_lengths", "quantise_and_normalise", "scale", "transpose", "get_sequence_duration", "is_empty", "equals"] := by
   decide
+
+/-- **`Sequence.equals`**: both absolute views are read (regenerating them if stale), the flags are handed on in the order of the
+    signature, the receiver's view ends up sorted in place — the model's `equalsSeq` -/
+theorem equals_eq (e : Env) (s t : Seq) (ic its iks iv : Bool) :
+    Gen.Wrap.equals e s t ic its iks iv =
+      (fun r => (r.1, r.2.2)) <$> Seq.equalsSeq e { ignoreCh := ic, ignoreTs := its, ignoreKs := iks, ignoreVel := iv } s t := by
+  obtain ⟨a, r, sa, sr⟩ := s
+  obtain ⟨a', r', sa', sr'⟩ := t
+  cases sa <;> cases sr <;> cases sa' <;> cases sr' <;>
+    simp [Gen.Wrap.equals, Gen.Wrap.getAbs, View.abs_equals, Seq.equalsSeq, Seq.readAbs, View.rel_to_absolute_sequence]
+
+/-- the default arguments of the translated and linked methods are pinned: the generated functions take every parameter explicitly, the
+    call sites inside the library fill in these defaults (the translator does that from the source), and a caller's `seq.scale(2)` means
+    what this table says.  A changed default changes the regenerated table and breaks this theorem. -/
+theorem defaults_pinned :
+    Gen.Wrap.defaults = ["RelativeSequence.add_message(index=None)", "RelativeSequence.scale(meta_sequence=None)", "AbsoluteSequence.quantise(step_sizes=None)", "AbsoluteSequence.quantise_note_lengths(note_values=None)", "AbsoluteSequence.quantise_note_lengths(standard_length=PPQN)", "AbsoluteSequence.quantise_note_lengths(do_not_extend=False)", "AbsoluteSequence.equals(ignore_channel=False)", "AbsoluteSequence.equals(ignore_time_signature=False)", "AbsoluteSequence.equals(ignore_key_signature=False)", "AbsoluteSequence.equals(ignore_velocity=False)", "Sequence.add_relative_message(index=None)", "Sequence.quantise(step_sizes=None)", "Sequence.quantise_note_lengths(note_values=None)", "Sequence.quantise_note_lengths(standard_length=PPQN)", "Sequence.quantise_note_lengths(do_not_extend=False)", "Sequence.quantise_and_normalise(step_sizes=None)", "Sequence.quantise_and_normalise(note_values=None)", "Sequence.quantise_and_normalise(standard_length=PPQN)", "Sequence.quantise_and_normalise(do_not_extend=False)", "Sequence.scale(meta_sequence=None)", "Sequence.scale(quantise_afterwards=True)", "Sequence.equals(ignore_channel=False)", "Sequence.equals(ignore_time_signature=False)", "Sequence.equals(ignore_key_signature=False)", "Sequence.equals(ignore_velocity=False)"] := by
+  decide
+
+/-- `MessageType` in source order is the order the models sort by (`MType.rank`): swapping two members of the Python enum changes the
+    regenerated list and breaks this theorem -/
+theorem message_type_order : Gen.messageTypeOrder = MType.names := by decide
 
 end SCoda.WrapTie
